@@ -357,3 +357,24 @@ CHECKS["C07"] = {
         "interleavings are generated by TLC (all of length <= 2 plus a random sample of longer ones)",
     ],
 }
+
+CHECKS["C19"] = {
+    "title": "production weights are normalised per non-terminal, stable and respected",
+    "run": std_run,
+    "models": [
+        {"module": "MC_C19", "cfg": "MC_C19.cfg", "workers": 4},
+        {"module": "MC_C19", "cfg": "MC_C19_noreset.cfg", "workers": 4, "expect_violation": "SumToOne is violated"},
+        {"module": "MC_C18", "cfg": "MC_C18.cfg", "workers": 8},
+    ],
+    "drivers": [{"module": "harness.drv_c19", "trace": "Trace_C19"}],
+    "shards": {"quick": 1, "thorough": 8},
+    "rule": "one trace per weighted hierarchy (fresh classes; any subset of productions weighted incl. zero weights and "
+            "nested abstract types; considered list = all classes or concrete classes only): three consecutive "
+            "extractions, then every weight-aware chooser driven through all (boundary) raw draws for every "
+            "non-terminal",
+    "assumptions": [
+        "weights are projected as integers scaled by 10^4; sums / ratios / idempotence are judged with a tolerance of "
+        "2e-4 per production",
+        "hierarchies whose weights are all zero under one non-terminal are excluded (normalisation undefined)",
+    ],
+}
